@@ -69,7 +69,7 @@ pub fn check_hist(c: &HistCase) -> CheckResult {
         .class_if(e.straddle_refill, "straddles-refill")
         .class_if(e.pending_then_other, "pending-half-dropped")
         .class_if(e.pending_taken, "pending-half-taken")
-        .class_if(e.ambiguous_zero_fill, "isaac64-zero-fill-two-valued")
+        .class_if(e.ambiguous_zero_fill, "isaac64-empty-fill-while-half-pending")
         .class_if(c.pre > 0, "pre-advanced"))
 }
 
@@ -118,7 +118,7 @@ pub fn def(ctx: &Ctx) -> PropDef {
         explanation: None,
         assumptions: vec![
             "the native word stream is supplied by a twin instance of the same crate type (determinism of construction is itself checked by C10/C19)".into(),
-            "for a zero-length fill_bytes between two next_u32 of Isaac64Rng the statement is silent; both continuations are accepted".into(),
+            "an empty fill_bytes of a block generator is a call (it ends the window in which a following next_u32 returns the high half); for the composition-defined generators it is zero calls".into(),
         ],
         subs,
     }
